@@ -2003,14 +2003,19 @@ def hc_entry_post(c, p):
     n = c.inp("_5.1", BV64)              # data.len() (BytesMut { ptr, len, cap, data })
     old = c.inp(TR, BV64)
     sat = "(ite (bvult (bvadd %s %s) %s) %s (bvadd %s %s))" % (old, n, old, bv((1 << 64) - 1), old, n)
-    return eq(got, sat)
+    # ... if the remainder came from the address of the path the connection is on, and not at all otherwise (finding 27)
+    eqs = [x for x in st.calls if re.search(r"SocketAddr as PartialEq>::(eq|ne)$", x[0]) and (first is None or st.calls.index(x) < st.calls.index(first))]
+    if not eqs:
+        return eq(got, old)
+    same = eqs[0][2] if eqs[0][0].endswith("eq") else not_(eqs[0][2])
+    return and_(or_(not_(same), eq(got, sat)), or_(same, eq(got, old)))
 
 
-Q(name="e2_handle_coalesced_credit", props=["C07"], func=r"connection/mod\.rs:245:1[^>]*>::handle_coalesced$",
-  loop_is_stop=True, check_stop=True, allowed_panics=r".",
+Q(name="e2_handle_coalesced_credit", props=["C07", "C15"], func=r"connection/mod\.rs:245:1[^>]*>::handle_coalesced$",
+  pure=[r"PartialEq>::(eq|ne)"], loop_is_stop=True, check_stop=True, allowed_panics=r".",
   functions=["Connection::handle_coalesced (entry and first iteration)"], pre=lambda c: "true", post=hc_entry_post,
-  bounds="every datagram remainder: before the first coalesced packet is processed the path has been credited with exactly the length of the remainder (saturating)",
-  replay=("conn_handle_coalesced_credit_native", lambda m: [dict(k=1), dict(k=3)]))
+  bounds="every datagram remainder, every source address: before the first coalesced packet is processed the path the connection is on has been credited with exactly the length of the remainder (saturating) if the datagram came from that path's address, and with nothing otherwise",
+  replay=("conn_foreign_datagram_credit_native", lambda m: [dict(mode=1), dict(mode=4), dict(mode=0), dict(mode=2)]))
 
 
 def hc_body_post(c, p):
@@ -3528,28 +3533,7 @@ Q(name="e2_handle_event_credits_own_path_only", props=["C07", "C15"], func=r"con
   allowed_panics=r"attempt to compute", functions=["Connection::handle_event (Datagram arm)"],
   pre=he_pre, post=hec_post,
   bounds="every datagram event, every effect of handling its first packet (handle_decode opaque - it may or may not have migrated the connection): afterwards the source address is compared with the address of the path the connection is on NOW, and total_recvd of that path is raised only if they are equal; up to the point where coalesced packets are handed on",
-  replay=("conn_foreign_datagram_credit_native", lambda m: [dict(mode=k) for k in range(4)]))
-
-
-def hcc_post(c, p):
-    st = p.p.state
-    calls = st.calls
-    k = "*_1.%d.%d" % (c.field("connection/mod.rs", "Connection", "path"), c.field("connection/paths.rs", "PathData", "total_recvd"))
-    first = [i for i, x in enumerate(calls) if re.search(r"PartialDecode::new$|Connection::handle_decode$", x[0])]
-    end = _Snap(st, calls[first[0]][3]) if first and calls[first[0]][3] is not None else st
-    after = c.ex.read_key(end, k, BV64).t
-    eqs = [x for i, x in enumerate(calls) if (not first or i < first[0]) and re.search(r"SocketAddr as PartialEq>::(eq|ne)$", x[0])]
-    if not eqs:
-        return eq(after, c.inp(k, BV64))
-    same = eqs[0][2] if eqs[0][0].endswith("eq") else not_(eqs[0][2])
-    return or_(same, eq(after, c.inp(k, BV64)))
-
-
-Q(name="e2_handle_coalesced_credits_own_path_only", props=["C07", "C15"], func=r"connection/mod\.rs:\d+:1: \d+:16>::handle_coalesced$",
-  pure=[r"PartialEq>::(eq|ne)", r"BytesMut::len"], check_stop=True, loop_is_stop=True, allowed_panics=r".", ignore_untranslatable=r".",
-  functions=["Connection::handle_coalesced (up to its loop over the coalesced packets)"], pre=lambda c: "true", post=hcc_post,
-  bounds="every state, every source address: before the coalesced packets are decoded, total_recvd of the current path is raised only if the datagram came from that path's address",
-  replay=("conn_foreign_datagram_credit_native", lambda m: [dict(mode=k) for k in range(4)]))
+  replay=("conn_foreign_datagram_credit_native", lambda m: [dict(mode=k) for k in (0, 1, 2, 5, 4)]))
 
 
 # ================================================================== the `quinn` crate (async layer): MIR dumped from its own workspace, candidates replayed by tests over loopback sockets
